@@ -71,3 +71,17 @@ Theorem c10_mpint1_roundtrip : forall n r bs, 0 <= n -> enc_mpint1 n = Ok bs -> 
 Proof. exact mpint1_roundtrip. Qed.
 Theorem c10_pkm_roundtrip : forall m p r, wf_pkm m -> write_pkm m = Ok p -> parse_pkm (p ++ r) = Ok (m, r).
 Proof. exact pkm_roundtrip. Qed.
+
+(* SSH-1 CRC-32: the table built by SSH1_CRC32.__init__ (dumped from the running code) is the model's table, the table-driven byte step
+   is eight steps of the bit-serial shift register with polynomial 0xedb88320 for every register value and byte, so the checksum of every
+   byte string is the bit-serial CRC, and it always fits the 32-bit field it is packed into *)
+From VGen Require Import Tables.
+From VProofs Require Import CrcProofs.
+Theorem c10_crc_table : py_crc_table = crc_table.
+Proof. exact py_crc_table_is_model_table. Qed.
+Theorem c10_crc_step_bitserial : forall crc b, 0 <= b < 256 -> crc_step crc b = crc_bits 8 crc b.
+Proof. exact crc_step_is_bitserial. Qed.
+Theorem c10_crc_calc_bitserial : forall v, Forall (fun b => 0 <= b < 256) v -> crc_calc v = fold_left (crc_bits 8) v 0.
+Proof. exact crc_calc_is_bitserial. Qed.
+Theorem c10_crc_calc_u32 : forall v, Forall (fun b => 0 <= b < 256) v -> 0 <= crc_calc v < 2 ^ 32.
+Proof. exact crc_calc_u32. Qed.
